@@ -33,7 +33,7 @@ ASSUMPTIONS = [
 def floors(tier):
     return {"cut:ubx-header": 50, "cut:ubx-length": 50, "cut:ubx-payload": 50, "cut:ubx-checksum": 50,
             "cut:nmea-body": 50, "cut:nmea-crlf": 20, "cut:rtcm-header": 50, "cut:rtcm-payload": 50,
-            "cut:rtcm-crc": 50, "cut:boundary": 50, "garbage-cuts": 2000}
+            "cut:rtcm-crc": 50, "cut:boundary": 50, "garbage-cuts": 2000, "resumed-after-cut": 300}
 
 
 def plan(tier, seed):
@@ -132,6 +132,22 @@ def check(case) -> core.Out:
                         v = (f"{PROP}|count|{cls}",
                              f"cut {k} ({cls}) of stream {data[:50].hex()}: {len(got)} items delivered, "
                              f"{want} accepted frames lie wholly before the cut")
+            if v is None and clean and cls == "boundary" and 0 < k < len(data) and counts[lab] <= 6:
+                # the cut is an interruption: iteration stops, the rest of the stream
+                # arrives, and the same reader object is iterated again
+                counts["resumed-after-cut"] = counts.get("resumed-after-cut", 0) + 1
+                try:
+                    ts = S.TrackingStream(data[:k])
+                    rd = S.mk_reader(ts, opts, (lambda e: None) if opts["quitonerror"] == 1 else None)
+                    both = [(r, p) for r, p in rd]
+                    ts.append(data[k:])
+                    both += [(r, p) for r, p in rd]
+                    if not S.same_items(both, full):
+                        v = (f"{PROP}|resume-differs|{cls}",
+                             f"stream {data[:50].hex()} interrupted at the frame boundary {k} and iterated again after "
+                             f"the rest arrived: {len(both)} items, uninterrupted {len(full)} ({S.opts_label(opts)})")
+                except Exception as err:  # noqa
+                    v = (f"{PROP}|resume-raises:{type(err).__name__}|{cls}", f"cut {k}: {err!r}")
             if v and v[0] not in seen:
                 seen.add(v[0])
                 viol.append(v)
